@@ -253,7 +253,41 @@ pub fn run(ctx: &Ctx) -> Report {
          recursive snapshot after every roll compared with a shift-register reference; each roll of each chain is one evaluation. Non-trivial = case with count >= 2 or bystanders",
     );
     let cs = cases(ctx.tier);
-    let bad: Vec<(usize, (String, String))> = cs.par_iter().enumerate().filter_map(|(i, c)| if ctx.over_cap() { None } else { check(c).map(|m| (i, m)) }).collect();
+    // cases with a huge base run under a watchdog: a roller whose work grows with the base value would not come back
+    let (small, huge): (Vec<usize>, Vec<usize>) = (0..cs.len()).partition(|i| cs[*i].base < 1_000_000);
+    let mut bad: Vec<(usize, (String, String))> = small.par_iter().filter_map(|i| if ctx.over_cap() { None } else { check(&cs[*i]).map(|m| (*i, m)) }).collect();
+    let (tx, rx) = std::sync::mpsc::channel();
+    for chunk in huge.chunks((huge.len() / 16).max(1)) {
+        let tx = tx.clone();
+        let list: Vec<(usize, Case)> = chunk.iter().map(|i| (*i, cs[*i].clone())).collect();
+        std::thread::spawn(move || {
+            for (i, c) in list {
+                let r = check(&c);
+                if tx.send((i, r)).is_err() {
+                    return;
+                }
+            }
+        });
+    }
+    drop(tx);
+    let mut seen_huge = 0usize;
+    let deadline = std::time::Instant::now() + std::time::Duration::from_secs(ctx.tier.pick(20, 600));
+    while seen_huge < huge.len() {
+        match rx.recv_timeout(deadline.saturating_duration_since(std::time::Instant::now())) {
+            Ok((i, r)) => {
+                seen_huge += 1;
+                if let Some(m) = r {
+                    bad.push((i, m));
+                }
+            }
+            Err(_) => {
+                let i = huge[0];
+                bad.push((i, ("roll-does-not-return".into(), format!("{} of {} cases with base >= 4e9 did not finish within the watchdog interval: the work of a roll must not grow with the base value", huge.len() - seen_huge, huge.len()))));
+                break;
+            }
+        }
+    }
+    bad.sort_by_key(|(i, _)| *i);
     rep.set("cases", cs.len() as u64);
     rep.set("evaluations", cs.iter().map(|c| c.rolls as u64).sum::<u64>());
     rep.set("distinct_nontrivial", cs.iter().filter(|c| c.count >= 2 || c.bystanders).count() as u64);
